@@ -116,6 +116,18 @@ def rule_first(ctx: Ctx) -> RuleResult:
         res.violation(["spil.sid.core.sid_resolver.sid_to_dict", "untyped pair"], "sid_to_dict can return a type with empty data, or no longer "
                                                                                   "answers (None, None) for an unresolved string", f.relpath, f.node.lineno)
 
+    # no answer before the resolver was asked: an exit that does not pass a resolve call is a filter of its own in front of
+    # the templates (the templates alone say what is typed)
+    if len(calls["resolve_first"]) == 1 and len(calls["resolve_one"]) == 1:
+        cfg = cfg_of(f.node)
+        asked = [cfg.node_of(c).id for c in (calls["resolve_first"][0], calls["resolve_one"][0]) if cfg.node_of(c) is not None]
+        early = [r for r in rets if cfg.node_of(r) is not None and cfg.path_exists(cfg.entry.id, cfg.node_of(r).id, avoid=asked, exceptional=False)]
+        if early:
+            res.violation([f.qualname, "answer before the resolver"], f"sid_to_dict: `{norm(early[0])}` can be reached without asking the resolver: "
+                                                                      f"strings are sorted out by something other than the templates", f.relpath, early[0].lineno)
+        else:
+            res.ok("sid_to_dict exits", f"all {len(rets)} returns come after resolve_first / resolve_one")
+
     # (a') the fields direction: dict_to_sid formats with the given type when there is one, else with the first fitting
     # template; dict_to_type answers the first fitting type (configuration order) unless all are asked for
     from ..shape import facts_at as _fa
